@@ -20,6 +20,7 @@ ASSUMPTIONS = ["no code outside the analysed crate mutates the tracker's stores"
 
 
 def run(ctx):
+    _ownership(ctx)
     _wiring(ctx)
     ctx.rule('R03.1', 'store-accessor wiring of TrackerAPI defaults and of the four impls')
     ctx.floor('R03.1', T.rule_accessor_wiring(ctx, 'R03.1'), 28)
@@ -53,3 +54,10 @@ def _wiring(ctx):
     import wiring
     ctx.rule('R03.9', 'configuration plumbing: same-named fields / parameters / setters / call arguments are not crossed')
     ctx.floor('R03.9', wiring.run(ctx, 'R03.9', {'max_idle_epochs', 'history_length', 'epoch_db', 'scene_id', 'epoch'}), 37)
+
+
+def _ownership(ctx):
+    """who-may-write rows of rules/ownership.py that concern this property"""
+    import ownership
+    ctx.rule('R03.11', 'who-may-write: state this property depends on is changed only by its owners (rules/ownership.py)')
+    ctx.floor('R03.11', ownership.run(ctx, 'R03.11', 'C03'), 4)
